@@ -652,6 +652,7 @@ func commonPool(r *rng, tier, tag string) []taggedScen {
 			}
 		}
 	}
+	out = append(out, batchPool(r, tier)...)
 	for i := 0; i < nflows; i++ {
 		base := randFlowScen(r, 3, tag, i%3 != 0)
 		base.tags = append(base.tags, "pool")
